@@ -475,6 +475,14 @@ class Check:
             "violations": nviol,
         }
         ev["coverage"].update(self.extra)
+        # keys the evidence schema reserves with a fixed type: a check that used one of them for something else is renamed, not dropped
+        _typed = {"states": int, "transitions": int, "traces_validated_against_impl": int, "programs": int,
+                  "disagreements_checked": int, "explanation": str, "exhaustive": bool, "evaluations": int,
+                  "distinct_nontrivial": int, "rule": str}
+        for k, t in _typed.items():
+            v = ev["coverage"].get(k)
+            if k in ev["coverage"] and (not isinstance(v, t) or (t is int and (isinstance(v, bool) or v < 0))):
+                ev["coverage"]["x_" + k] = ev["coverage"].pop(k)
         # merge sub-checks (their own theorems, cases and violations count towards this property)
         for sub in self.subs:
             sc = sub.get("coverage", {})
